@@ -45,6 +45,7 @@ func runSvcRings(c SRCase) (fail, incon string, classes []string) {
 	var rx []got
 	var bytesRead int
 	stalledAt := -1
+	released := false // set when the harness resumes reading for good: no stall after that
 	S.OnPacket = func(p *codec.Packet, off int64) bool {
 		if p.Type != codec.PUBLISH {
 			return false
@@ -61,7 +62,7 @@ func runSvcRings(c SRCase) (fail, incon string, classes []string) {
 		mu.Lock()
 		rx = append(rx, got{pub, seq, ok})
 		bytesRead += len(p.Payload)
-		if stalledAt < 0 && bytesRead >= c.ReadFirst {
+		if stalledAt < 0 && !released && bytesRead >= c.ReadFirst {
 			stalledAt = len(rx)
 			S.StallFromCallback()
 		}
@@ -127,6 +128,7 @@ func runSvcRings(c SRCase) (fail, incon string, classes []string) {
 	if stalledAt >= 0 {
 		classes = append(classes, "subscriber-stopped-reading")
 	}
+	released = true // on a slow machine the traffic may not have reached the stall point yet: it must not stall later
 	mu.Unlock()
 	if total > c.BufSize {
 		classes = append(classes, "more-than-a-ring-delivered")
